@@ -97,6 +97,20 @@ pub fn add_capture_idiom(u: &mut Choices, file: &mut File, doc: &V) {
     if u.chance(1, 2) {
         body.push(vec![Item::Clause(cl_bin(Query { head: Head::Var(cap.clone()), parts: vec![] }, BinOp::In, false, Lit::V(V::List(vec![V::s("res0"), V::s("res1"), V::s("twin")]))))]);
     }
+    // half of the idioms: a second capture variable over the same map, selecting an overlapping
+    // set of entries, counted too
+    if !collide && u.chance(1, 2) {
+        let cap2 = format!("cap{}b", n);
+        let filt2 = vec![vec![Item::Clause(cl_un(q_key(&["Type"]), UnOp::Exists, false))]];
+        let q2 = Query { head: Head::Key("Resources".into()), parts: vec![Part::CapFilter(cap2.clone(), filt2)] };
+        file.lets.push(Let { name: format!("cap{}bn", n), value: Expr::Call(Call { name: "count".into(), args: vec![Expr::Query { some: false, q: Query { head: Head::Var(cap2.clone()), parts: vec![] } }] }) });
+        let def2 = Rule { name: format!("capdef{}b", n), when: None, lets: vec![], body: vec![vec![Item::Clause(cl_un(q2, UnOp::Empty, true))]] };
+        body.insert(1, vec![Item::Ref { neg: false, name: format!("capdef{}b", n), msg: None }]);
+        let k2 = u.below(5) as i64;
+        body.push(vec![Item::Clause(cl_bin(Query { head: Head::Var(format!("cap{}bn", n)), parts: vec![] }, *u.pick(&[BinOp::Eq, BinOp::Ge, BinOp::Lt]), false, Lit::V(V::Int(k2))))]);
+        let at = u.below(file.rules.len() + 1);
+        file.rules.insert(at, def2);
+    }
     let use_rule = Rule { name: format!("capuse{}", n), when: None, lets: vec![], body };
     if collide {
         // two observers of the shared name, one first and one last in the file
